@@ -154,13 +154,28 @@ def barycentric(P, rep, rule="EXPR.barycentric"):
         symt = norm.Sym(P, F, inline_locals=True, hook=hook_eps)
         conj = []
 
-        def split(c):
+        nl = norm.naming_locals(P, F)
+
+        def resolve(c):
             c = sc(c)
+            while c is not None and c.get("k") == "DeclRefExpr" and c.get("r") in nl.vals:
+                c = sc(nl.vals[c["r"]])
+            return c
+
+        def split(c):
+            c = resolve(c)
             if c.get("k") == "BinaryOperator" and c.get("op") == "&&":
                 split(c["c"][0]); split(c["c"][1])
             else:
                 conj.append(c)
-        split(ifs[0]["c"][0])
+        # `if (accept) { ...; return true; } return false;`  or  `if (!accept) return false; ...; return true;`
+        top = resolve(ifs[0]["c"][0])
+        then_rets = [z for z in F.walk(ifs[0]["c"][1]) if z.get("k") == "ReturnStmt" and z.get("c")]
+        rejects = bool(then_rets) and all(sc(z["c"][0]).get("k") == "CXXBoolLiteralExpr" and sc(z["c"][0]).get("v") is False for z in then_rets)
+        if top.get("k") == "UnaryOperator" and top.get("op") == "!" and rejects:
+            split(top["c"][0])
+        else:
+            split(top)
         margins = []       # expressions required to be >= 0
         okc = True
         for c in conj:
@@ -695,7 +710,16 @@ def kd_structure(P, rep, rule="KD"):
             for c in calls:
                 a = [R(z) for z in c["c"][1:]]
                 rng = (a[1], a[2])
-                guards = [R(g["c"][0]) for g in F.ancestors(c) if g.get("k") == "IfStmt" and g is not T]
+                guards = []
+                for g in F.ancestors(c):
+                    if g.get("k") == "IfStmt" and g is not T:
+                        stack = [g["c"][0]]
+                        while stack:      # `if (a) if (b)` and `if (a && b)` are the same guard
+                            e = sc(stack.pop())
+                            if e.get("k") == "BinaryOperator" and e.get("op") == "&&":
+                                stack.extend(e["c"])
+                            else:
+                                guards.append(R(e))
                 prune = [g for g in guards if best.split(".")[-1] in g]
                 if rng == near:
                     if prune:
